@@ -239,7 +239,9 @@ func (b *Billet) traverse(curr Node, path, from []byte, process func(pathToNode 
 		}
 		return b.traverse(r, path, from, process, ignoreStorageErr, backwards)
 	}
-	if len(from) == 0 {
+	// A leaf reached with the start bound not yet exhausted has a key that is a strict
+	// prefix of the bound: it is in range when going backwards.
+	if _, isLeaf := curr.(*LeafNode); len(from) == 0 || (backwards && isLeaf) {
 		bytes := bytes.Clone(curr.Bytes())
 		if process(fromNibbles(path), curr, bytes) {
 			return curr, errStop
